@@ -240,6 +240,13 @@ impl Launcher {
             }
         };
         cmd.arg(&script).arg(&log);
+        for (k, v) in &session.env {
+            if v == "<unset>" {
+                cmd.env_remove(k);
+            } else {
+                cmd.env(k, v);
+            }
+        }
         self.seed_randomness(&mut cmd, session.rand);
         let child = match self.spawn_with_affinity(&mut cmd, session.cpus, rotate) {
             Ok(c) => c,
